@@ -582,6 +582,9 @@ func descD(v ssa.Value, depth int) string {
 				if b, ok := paramBind[x]; ok && bindStructParams && strings.HasPrefix(b, "call:") {
 					return b // the object a call in the caller produced keeps that identity in a helper
 				}
+				if b, ok := paramBind[x]; ok && bindFreshObjects && strings.HasPrefix(b, "new:") && !strings.ContainsAny(b[4:], "[") && b == "new:"+typeShort(n) {
+					return b // the object the caller is constructing keeps that identity in a helper it is handed to
+				}
 				return "<" + typeShort(n) + ">"
 			}
 		}
@@ -1081,6 +1084,42 @@ func dependsOn(P *Program, v ssa.Value, pred func(d string) bool) bool {
 	return false
 }
 
+// dependsOnDeep is dependsOn that also looks into the unexported helpers whose results v depends on: the helper's
+// returned values are examined with its parameters bound to the call's arguments, so the descriptors read as if the
+// helper's body were written at the call site (`digest(bts)` for `sha256.Sum256(bts)[:]`).
+func dependsOnDeep(P *Program, v ssa.Value, depth int, pred func(d string) bool) bool {
+	if dependsOn(P, v, pred) {
+		return true
+	}
+	if depth <= 0 {
+		return false
+	}
+	for x := range deps(P, v) {
+		c, ok := x.(*ssa.Call)
+		if !ok {
+			continue
+		}
+		g := staticCallee(c)
+		if g == nil || !inModuleFn(g) || g.Blocks == nil || g.Parent() != nil || (g.Object() != nil && g.Object().Exported()) {
+			continue
+		}
+		found := false
+		bindCall(c, g, func() {
+			for _, r := range returnsOf(g) {
+				for _, rv := range r.Results {
+					if dependsOnDeep(P, rv, depth-1, pred) {
+						found = true
+					}
+				}
+			}
+		})
+		if found {
+			return true
+		}
+	}
+	return false
+}
+
 func hasPrefixAny(s string, pre ...string) bool {
 	for _, p := range pre {
 		if strings.HasPrefix(s, p) {
@@ -1192,6 +1231,11 @@ func loopDepthOf(b *ssa.BasicBlock) int {
 // bindStructParams: while a helper's return term is inlined into its caller, an object that a call in the caller
 // produced keeps that identity inside the helper (instead of the type-rooted name).
 var bindStructParams bool
+
+// bindFreshObjects: a helper that is handed the object its caller has just created (`k := new(Key); if !k.complete() {...}`)
+// sees that object under the caller's name for it (new:pkg.T) instead of the type-rooted <pkg.T>. Switched on by the
+// rules that follow a freshly decoded object through predicates (key loaders).
+var bindFreshObjects bool
 
 // bindCall runs f with g's parameters bound to the arguments of the call c (descriptors taken in the
 // current context, so bindings compose along a call chain).
